@@ -10,6 +10,20 @@ package termincommittee
 //@   ensures [rotation] result == committeeMembers[view % len(committeeMembers)].Id
 //@   ensures [rotation.nil] isnil(result) == isnil(committeeMembers[view % len(committeeMembers)].Id)
 
+// the method every handler uses: same rotation, for every view including 2^64-1 (no reserved values)
+//@ func (*TermInCommittee).calcLeaderMemberId
+//@   props C18 C12
+//@   requires len(tic.committeeMembers) >= 1
+//@   ensures [rotation] result == tic.committeeMembers[view % len(tic.committeeMembers)].Id
+
+// disposing a term stops the election timer unconditionally (C16: nothing fires after shutdown) - whether or not the term
+// has committed
+//@ func (*TermInCommittee).Dispose
+//@   props C16 C19
+//@   requires tic.State != nil && tic.electionTrigger != nil && tic.storage != nil
+//@   modifies ghost:schedStopped
+//@   ensures [O16.the-election-timer-is-stopped-when-a-term-is-disposed] schedStopped
+
 //@ func isLeaderOfViewForThisCommittee
 //@   props C18
 //@   requires len(committeeMembers) >= 1
